@@ -317,7 +317,13 @@ func authenticateConnection(p2id participant2ID, conn net.Conn, logger Logger) (
 	sig := h.Signature
 	h.Signature = nil
 
-	if !ecdsa.VerifyASN1(pk, sha256Digest(h.Bytes()), sig) {
+	signedBytes, err := asn1.Marshal(h)
+	if err != nil {
+		logger.Warnf("Handshake received cannot be encoded: %v", err)
+		return "", 0, false
+	}
+
+	if !ecdsa.VerifyASN1(pk, sha256Digest(signedBytes), sig) {
 		logger.Warnf("Signature mismatch")
 		return "", 0, false
 	}
